@@ -258,6 +258,9 @@ def metadata_refused(m, p, o):
         return None
     for mp in (m.get("grpc") or {}).get("metadata") or []:
         v = p.get(mp["attr"]) if isinstance(p, dict) else None
+        if isinstance(v, list):
+            bad = [x for x in v if isinstance(x, str) and not re.match(r"^[\x20-\x7e]*$", x)]
+            v = bad[0] if bad else None
         if isinstance(v, str) and not re.match(r"^[\x20-\x7e]*$", v):
             return ("c10/metadata/value-outside-printable-ascii", "%s: the string attribute %s = %r is mapped to metadata and sent as it is; grpc refuses metadata values "
                     "outside printable ASCII, the payload never reaches the service" % (m["name"], mp["attr"], v))
@@ -285,7 +288,8 @@ def judge_valid(b, s, m, p, res, o):
     req_msg = g.get("req_msg") if isinstance(g.get("req_msg"), dict) else {}
     lower = {k.lower().replace("_", ""): k for k in req_msg}
     for mp in gm.get("metadata") or []:
-        if isinstance(p, dict) and p.get(mp["attr"]) is not None:
+        if isinstance(p, dict) and p.get(mp["attr"]) is not None and p.get(mp["attr"]) != []:
+            # (an empty array has no metadata entry: it arrives as absent)
             key = (mp.get("wire") or mp["attr"]).lower()
             if key not in {k.lower() for k in (g.get("server_md") or {})}:
                 out.append(("c10/metadata-not-sent", "%s: attribute %s is mapped to metadata but the server received no such key (%s)" % (name, mp["attr"], sorted(g.get("server_md") or {}))))
